@@ -11,6 +11,9 @@ Request `<op> <args…> => <implementation output>`, answer `model=<…> holds=<
   rt|out|in <codec> <kind> <len:crc> [..] => ok <len:crc>      model = "ok <len:crc>" (losslessness / interop)
   hist <codec> <what> <len:crc payload> <len:crc stream> => ok <len:crc> <len:crc>
   ovl <codec> <what> <p1> <p2> <p3> => ok <p1> <p2> <p3> <p1> <p2> <p3>   three writers, then three readers, open at once
+  srcerr <codec> <len:crc> cut<k>/<n> => sound      the source fails after k bytes: an error or the whole payload
+  wrerr <codec> <len:crc> cut<k>/<n> => sound       the sink fails after k bytes: Write or Close reports an error
+  stress <codec> <G> => ok <G> none                  tight open/close loops on many goroutines
   conc <codec> <G> => ok <G> <first failure>
 -/
 import KafkaVerif.Base.Proto
@@ -59,6 +62,11 @@ def step (line : String) : String :=
         let model := showNats ns
         answer model (model == impl && ns.foldl (· + ·) 0 == blocks.foldl (· + ·) 0)
       | _, _ => "bad-op"
+    | ["srcerr", _codec, _sum, _cut] => answer "sound" (impl == "sound")
+    | ["wrerr", _codec, _sum, _cut] => answer "sound" (impl == "sound")
+    | ["stress", _codec, g] =>
+      let model := s!"ok {g} none"
+      answer model (model == impl)
     | op :: _codec :: _kind :: want :: _ =>
       if op == "rt" || op == "out" || op == "in" then
         let model := s!"ok {want}"
